@@ -19,7 +19,6 @@ ASSUMPTIONS = [
     'inline Python is an uninterpreted pure function of the values of the local names it mentions (theorems hold for every interpretation); the driver '
     'interprets the fixed repertoire of harness/envgen.py (identity, tuples, lists, ==, !=, <, int, len, +1, constants)',
     'positions are threaded functionally in the names layer; the restores of the emitted code are the subject of C01/C03',
-    'the repetition count of e{n} is evaluated once in the model, before every iteration in the emitted loop (equal when no binder shadows n)',
 ]
 
 # hand-written families: every clause of the statement, including the classic traps
